@@ -230,6 +230,8 @@ pub enum Op {
     GateRelease { gate: GateId, n: u32 },
     GateAwait { gate: GateId, entered: u32 },
     GateOpen { gate: GateId },
+    /// non-blocking: bump the gate's `entered` counter (client-to-client signalling)
+    GateSignal { gate: GateId },
     Stall(Stall),
 }
 
